@@ -101,15 +101,11 @@ def handleC04 (op : String) (args : List Sexp) : Option Ans :=
     let d ← diffFrom d; let t ← mappingsFrom t; let nsName ← toJStr? ns
     pure (
       if !(decide (Diff.WF d) && decide (WF t)) then oodTag else
-      match t.getNamespace nsName with
+      match applyTo d t nsName with
       | none => oodTag
-      | some ns =>
-        if ns == 0 then oodTag else
-        match applyTo d t nsName with
-        | none => oodTag
-        | some r => if decide (WF r) then passTag else failTag "not_wf")
+      | some r => if decide (WF r) then passTag else failTag "not_wf")
   | "oracle-apply-wf-full", [d, t, ns] => do
-    -- `apply_preserves_wf` WITHOUT the hypothesis "not the first namespace" (never generated; replays the finding)
+    -- historical name (the finding C04-add-first-namespace-absent-key is replayed with it); same as `oracle-apply-wf`
     let d ← diffFrom d; let t ← mappingsFrom t; let nsName ← toJStr? ns
     pure (
       if !(decide (Diff.WF d) && decide (WF t)) then oodTag else
